@@ -125,6 +125,15 @@ class Sym(object):
 
     def norm_call(self, t):
         name, args = t[1], t[3]
+        # integer arithmetic spelled as methods: `a.checked_add(b)` is Some(a + b), `.expect(..)` /
+        # `.unwrap()` of that is a + b
+        m = _re.search(r"<impl \w+>::(checked|wrapping|saturating|strict|unchecked)_(add|sub)$", name)
+        if m and len(args) == 2:
+            b = ("bin", {"add": "Add", "sub": "Sub"}[m.group(2)], args[0], args[1])
+            return ("agg", "adt:std::option::Option:Some", (b,)) if m.group(1) == "checked" else b
+        if _re.search(r"Option::(expect|unwrap|unwrap_unchecked)$", name) and args and \
+                isinstance(args[0], tuple) and args[0][:2] == ("agg", "adt:std::option::Option:Some") and args[0][2]:
+            return args[0][2][0]
         if name.endswith("Option::map_or") and len(args) == 3:
             inner = self.payload(args[0]) or project(args[0], (("as", "Some"), ("f", 0)))
             return phi([args[1], self.apply(args[2], inner)])
@@ -2461,6 +2470,14 @@ def collect_bins(sym, op, seen=None):
             rv = st.get("rv")
             if rv and rv["k"] == "bin" and rv["op"].replace("WithOverflow", "") == op:
                 out.append((sym.operand(rv["a"]), sym.operand(rv["b"]), bb.get("span")))
+        # the same operation spelled as a method of the integer type (`a.checked_add(b).expect(..)`,
+        # `a.wrapping_sub(b)`, ..)
+        t = bb["term"]
+        if t["k"] == "call" and len(t["args"]) == 2:
+            c = norm_path(t.get("resp") or t["f"].get("path")) or ""
+            m = _re.search(r"::(?:checked|wrapping|saturating|overflowing|strict|unchecked)_(add|sub)$", c)
+            if m and {"add": "Add", "sub": "Sub"}[m.group(1)] == op and "<impl " in c:
+                out.append((sym.operand(t["args"][0]), sym.operand(t["args"][1]), bb.get("span")))
     for clo in closure_terms(sym):
         if clo in seen:
             continue
